@@ -48,7 +48,7 @@ MUTANTS = [
     ('c13-kill-delay-livelock-unfixed', 'C13', 'c13', 480, 'python/experiment/runtime/engine.py',
      "                if self.process is not None and self.process.isAlive():", "                if self.process is not None:"),
     ('c08-live-reference-without-invalidation', 'C08', 'c08', 64, 'python/experiment/model/frontends/flowir.py',
-     "        self._cache.invalidate_reg_expression(r\"component:.*:stage%s:%s\" % (comp_id[0], comp_id[1]))\n        return component",
+     "        self._cache.invalidate_reg_expression(r\"component:.*:stage%s:%s\" % (comp_id[0], re.escape(comp_id[1])))\n        return component",
      "        return component"),
     ('c08-platform-stage-variable-keeps-cache', 'C08', 'c08', 64, 'python/experiment/model/frontends/flowir.py',
      "        stage_vars[stage_index][variable] = value\n\n        self._cache.clear()", "        stage_vars[stage_index][variable] = value"),
